@@ -463,3 +463,66 @@ func slackVal(v reflect.Value, extra int, fill func() uint64) reflect.Value {
 		return v
 	}
 }
+
+// Scribble overwrites, in place, everything a caller who owns v may legitimately write to
+// without changing the shape of v: every element of every slice reachable from v (numeric
+// elements are replaced by x*167+13, struct and pointer elements are scribbled recursively) and every
+// numeric field behind a pointer held in a slice. Top-level fields of *v itself are left alone
+// (they are the caller's own variable); strings are immutable and untouched. It returns the
+// number of scalars written.
+func Scribble(v any) int {
+	if v == nil {
+		return 0
+	}
+	n := 0
+	scribbleVal(reflect.ValueOf(v), false, &n, 0)
+	return n
+}
+
+func scribbleVal(v reflect.Value, write bool, n *int, depth int) {
+	if depth > 12 {
+		return
+	}
+	switch v.Kind() {
+	case reflect.Ptr, reflect.Interface:
+		if !v.IsNil() {
+			scribbleVal(v.Elem(), write, n, depth+1)
+		}
+	case reflect.Slice:
+		for i := 0; i < v.Len(); i++ {
+			scribbleVal(v.Index(i), true, n, depth+1)
+		}
+	case reflect.Array:
+		for i := 0; i < v.Len(); i++ {
+			scribbleVal(v.Index(i), write, n, depth+1)
+		}
+	case reflect.Struct:
+		for i := 0; i < v.NumField(); i++ {
+			if v.Field(i).CanSet() || v.Field(i).Kind() == reflect.Ptr || v.Field(i).Kind() == reflect.Slice || v.Field(i).Kind() == reflect.Interface {
+				scribbleVal(v.Field(i), write, n, depth+1)
+			}
+		}
+	case reflect.Uint8, reflect.Uint16, reflect.Uint32, reflect.Uint64, reflect.Uint:
+		if write && v.CanSet() {
+			// not an involution: two results that share memory are both scribbled, and the second
+			// pass must not restore what the first one wrote
+			v.SetUint((v.Uint()*167 + 13) & (1<<uint(v.Type().Bits()) - 1))
+			*n++
+		}
+	case reflect.Int8, reflect.Int16, reflect.Int32, reflect.Int64, reflect.Int:
+		if write && v.CanSet() {
+			v.SetInt(v.Int()*3 + 7)
+			*n++
+		}
+	case reflect.Bool:
+		if write && v.CanSet() {
+			v.SetBool(!v.Bool())
+			*n++
+		}
+	case reflect.Float32, reflect.Float64:
+		if write && v.CanSet() {
+			v.SetFloat(-v.Float() - 1)
+			*n++
+		}
+	}
+}
